@@ -370,6 +370,8 @@ def run(ctx):
     import check
     items = [f'hash-{i}' for i in range(3 if ctx.quick else 6)] + list(range(300 if ctx.quick else 1500))
     check.pmap(ctx, 'props.c08', 'one', items, case_timeout=300 if ctx.quick else 1200)
+    # correspondence with the Lean model of the input glue (PGModel/Config.lean, driver command `config`), see props/corr_models.py
+    check.pmap(ctx, 'props.corr_models', 'one_config', list(range(16 if ctx.quick else 120)), case_timeout=300)
 
 
 def _rendering_from_json(r):
